@@ -33,7 +33,7 @@ def bounds(tier):
 
 def goals(tier):
     return ["default-id", "requested-id", "k=3", "annotated-inputs", "unused-module-in-comment", "two-level-nested-provenance",
-            "genbank-roundtrip", "rotated-inputs"]
+            "genbank-roundtrip", "rotated-inputs", "long-chain-comment"]
 
 
 def annotate(s, name):
@@ -178,6 +178,7 @@ def units(tier):
             us.append(("single", (enz, k)))
     for kit in ["cidar", "ecoflex", "moclo"]:
         us.append(("two-level", kit))
+    us.append(("long-chain", "BsaI"))
     return us
 
 
@@ -213,6 +214,8 @@ def run_unit(unit, st, tier):
                         st.scenario("product" if o else "none", None)
                         st.nontrivial += 1
         st.sample(dict(enz=enz, k=k, scheme=0, variant="annotated", ids=["pX1", "nameY"]))
+    elif kind == "long-chain":
+        unit_long_chain(st, arg)
     else:
         kit = arg
         for n_entries in (1, 2, 3):
@@ -222,6 +225,42 @@ def run_unit(unit, st, tier):
                 st.scenario("two-level", None, calls=4)
                 st.nontrivial += 1
         st.sample(dict(two_level=kit, entries=2))
+
+
+def unit_long_chain(st, enz):
+    """k = 4..8 modules: the comment must still name every one of them, one provenance tile per fragment"""
+    g = gen.geometry_of(gen.enzyme(enz))
+    M, V = gen.generic_classes(enz)
+    gen.prime([M, V])
+    base = asm.base_scenario(enz, 2)
+    words = gen.overhang_words(g.ov, 9, 2)
+    forbid = [g.site]
+    for k in range(4, 9):
+        ovs = words[: k + 1]
+        scn = dict(enz=enz, k=k, ovs=ovs, bodies=[gen.word(i, 3 + 5 * i, 3 + (i % 4), forbid) for i in range(k)],
+                   mbbs=[gen.word(i + 1, 9 + 3 * i, 2 + (i % 3), forbid) for i in range(k)],
+                   fills=[[gen.word(0, 3 + i, g.off, forbid), gen.word(0, 17 + i, g.off, forbid)] for i in range(k)],
+                   vbb=base["vbb"], vph=base["vph"], vfill=base["vfill"])
+        vec, mods = asm.pieces_to_plasmids(scn)
+        if any(rm.count_sites(p, g) != 2 for p in [vec] + mods):
+            st.filtered += 1
+            continue
+        ids = ["part-%02d_%s" % (i, "x" * (i % 3)) for i in range(k)]
+        recs = [CircularRecord(Seq(m), id=ids[i], name=ids[i][:16]) for i, m in enumerate(mods)]
+        vrec = CircularRecord(Seq(vec), id="backbone_vector", name="backbone_vector")
+        order = list(reversed(range(k)))
+        o = asm.run_assemble(V(vrec), [M(recs[i]) for i in order], id="chain%d" % k, name="chain%d" % k)
+        sc = dict(long_chain=k, enz=enz)
+        st.scenario("product" if o.kind == "product" else "none", None)
+        st.nontrivial += 1
+        if o.kind != "product":
+            st.violation("assembly", "assembly-fails-" + str(o.exc_name), sc, "product", o.brief())
+            continue
+        inputs = {ids[i]: mods[i] for i in range(k)}
+        inputs["backbone_vector"] = vec
+        check_product(st, dict(sc, retained_fragments=k + 1), o.record, inputs, "chain%d" % k, "chain%d" % k, ids, "backbone_vector")
+        st.goal("long-chain-comment")
+    st.sample(dict(long_chain=6, enz=enz))
 
 
 def run_two_level(st, scn):
@@ -304,6 +343,9 @@ def rebuild_inputs(scn, with_level1=False):
 
 
 def replay(scn, sub, st):
+    if "long_chain" in scn:
+        unit_long_chain(st, scn["enz"])
+        return
     if "two_level" in scn:
         run_two_level(st, {k: v for k, v in scn.items() if k != "retained_fragments"})
     else:
